@@ -3,6 +3,7 @@ package validator
 import (
 	"bytes"
 	"encoding/json"
+	"errors"
 	e "github.com/aml-org/amf-custom-validator/pkg/events"
 )
 
@@ -13,12 +14,16 @@ func ProcessInput(jsonldText string, debug bool, receiver *chan e.Event) (any, e
 
 	var input any
 	if err := decoder.Decode(&input); err != nil {
-		return "", nil
+		return nil, errors.New("input data is not a JSON document: " + err.Error())
 	}
 	dispatchEvent(e.NewEvent(e.InputDataParsingDone), receiver)
 
 	dispatchEvent(e.NewEvent(e.InputDataNormalizationStart), receiver)
-	normalizedInput := Index(Normalize(input))
+	flattened, err := NormalizeOrError(input)
+	if err != nil {
+		return nil, errors.New("input data is not valid JSON-LD: " + err.Error())
+	}
+	normalizedInput := Index(flattened)
 	dispatchEvent(e.NewEvent(e.InputDataNormalizationDone), receiver)
 
 	return normalizedInput, nil
